@@ -492,4 +492,21 @@ def run(ctx: Ctx, tier: str) -> Result:
         res.fail(Finding("C05.WIRE", fc.qname, vs[0], fc.loc(vs[0]), "the frame collector does not pass the action's collection_config to the variable processor (defaults are used): %s" % ctxt))
     from .common import borrow
     borrow(ctx, res, tier, "c07", ("C07.CHILD",), "C05.ONCE", "a value that was recorded before is referred to, not expanded again (shared and cyclic data cost no second round of children: the work stays inside the budget)")
+    # the values a search starts from are at depth 0: they are handed to the root through the Node constructor (which leaves
+    # their depth alone), not through add_children (which counts them one level down - every limit then cuts a level early)
+    nroots = 0
+    for f_ in p.functions.values():
+        for c_ in t.calls_in(f_):
+            if not any(g_.name == "breadth_first_search" for g_ in t.resolve_call(c_, f_).repo) or not c_.args:
+                continue
+            nroots += 1
+            root = c_.args[0]
+            rname = root.id if isinstance(root, ast.Name) else None
+            shifted = [x for x in t.calls_in(f_) if isinstance(x.func, ast.Attribute) and x.func.attr == "add_children" and rname is not None and norm(x.func.value) == rname]
+            if shifted:
+                res.fail(Finding("C05.DEPTH", f_.qname, shifted[0], f_.loc(shifted[0]), "the start values are attached to the search root with add_children: they begin at depth 1 instead of 0, "
+                                 "so everything is counted one level too deep and max_var_depth cuts a level early"))
+            else:
+                res.ok("C05.DEPTH", {"search starts at depth 0": f_.qname})
+    res.floor("breadth-first searches started", nroots, 1)
     return res
